@@ -155,6 +155,9 @@ def _sock_cond(sock):
     return fn()
 
 
+_WORLDS_MADE = 0
+
+
 class World(object):
     ''' Collection of nodes, a virtual clock and the global event counter. '''
 
@@ -166,7 +169,11 @@ class World(object):
         self.current_node = None
         self.event_no = 0
         self.n_callbacks = 0
-        self._next_sid = 1
+        # source ids are unique across the worlds of one process: an object left over from an earlier case that is
+        # collected later (TxSendWait.__del__, Agent.__del__ call source_remove) must not hit a live source of this world
+        global _WORLDS_MADE  # pylint: disable=global-statement
+        _WORLDS_MADE += 1
+        self._next_sid = _WORLDS_MADE * 100000000 + 1
         self.callback_errors = []
         self.stale_removes = 0
         self.after_callback_hooks = []
